@@ -24,6 +24,12 @@ Print Assumptions C07_ising_step_periodic.
 Theorem C07_heisenberg_step_covers_chain : forall L g, g <> HRz -> Permutation (bonds_of g (heis_step L false)) (chain_bonds L).
 Proof. exact heis_couplings_cover_chain. Qed.
 Print Assumptions C07_heisenberg_step_covers_chain.
+Theorem C07_fermi_hubbard_hopping_covers_chain : forall L, Permutation (fh_up_xx L) (chain_bonds L).
+Proof. exact fh_hopping_covers_chain. Qed.
+Print Assumptions C07_fermi_hubbard_hopping_covers_chain.
+Theorem C07_fermi_hubbard_step_symmetric : forall L, map fst (rev (fh_step L)) = map fst (fh_step L).
+Proof. exact fh_step_symmetric. Qed.
+Print Assumptions C07_fermi_hubbard_step_symmetric.
 
 (* MPO.hamiltonian / ising / heisenberg: the term list handed to from_pauli_sum (tied to the real builders by capturing that
    argument) couples every nearest-neighbour bond exactly once per two-body entry — plus the wrap-around bond when periodic —
